@@ -8,7 +8,7 @@ META = dict(
     level="proof",
     claim="The integer constant folder (eval2/eval3) returns, for every operator kind, every operand type and every operand value for which C11 defines the result, exactly the C11 value canonicalised to the node's type; division by zero never returns normally (it is diagnosed). Proved per node kind by a recursive function contract (children abstract), so nesting depth is covered by the contract rule. MUL/DIV/MOD value equality is bounded (8-bit magnitudes) and reported as bounded.",
     note="Trusted: CBMC, spec/c11_ops.h (C11 rendering), LP64 model. Not covered: the parser that builds the nodes, consumers' narrowing of the 64-bit result, long double folding.",
-    functions=["parse.c:eval2", "parse.c:eval3", "parse.c:eval"],
+    functions=["parse.c:eval2", "parse.c:eval3", "parse.c:eval", "parse.c:eval_double"],
     trusted_base=["CBMC 6.11 (goto-cc, DFCC instrumentation, symex, minisat2)", "spec/c11_ops.h as a rendering of C11 6.3.1.3 / 6.5.x",
                   "LP64 data model of goto-cc == that of the host gcc"],
     assumptions=["children are abstract nodes with arbitrary canonical values of their type (induction over expression depth is the recursive contract rule, not machine-checked separately)",
@@ -32,4 +32,8 @@ def jobs(tier):
                       cut=["error", "error_tok", "error_at", "warn_tok"], timeout=180,
                       no_checks=["signed-overflow", "undefined-shift"],
                       bounded=bounded, sample=f"eval2 on a {k} node, all operand types/values"))
+    for k in ("ND_ADD", "ND_SUB", "ND_NEG", "ND_COND", "ND_COMMA", "ND_NUM", "ND_CAST"):
+        js.append(Job(name=f"evald-{k}", src="evald.c", group="C07.3 floating folder", defs={"KIND": k}, units=["type.c"], mode="dfcc", enforce="eval_double", rec=True,
+                      replace=["add_type", "eval2"], cut=["error", "error_tok", "error_at", "warn_tok"], timeout=300, replay=None,
+                      sample=f"eval_double on a {k} node of type float or double, all operand values"))
     return js
